@@ -137,13 +137,18 @@ BInner ==
   \E p \in Pick(1, NonLoads), name \in Pick(1, FreeNames), cls \in Pick(1, {"Converter", "LinReg", "RLoss", "PSwitch", "VLoss"}),
      rail \in Pick(1, FreeRails), group \in Pick(1, GroupU) :
      X("ok", "add_comp", [refs |-> <<BRef(p)>>, aslist |-> FALSE, comp |-> C(name, cls, 0), rail |-> rail, group |-> group])
+\* (a source may be deleted too - with its subtree - when another one remains: index 0 becomes free)
 BDelEarly ==
-  \E target \in Pick(2, Names(sys) \ Sources(sys)), delchilds \in BOOLEAN :
+  \E target \in Pick(2, Names(sys) \ Sources(sys)) \cup Pick(1, Sources(sys)), delchilds \in BOOLEAN :
      X("ok", "del_comp", [target |-> target, delchilds |-> delchilds])
+BSecondMux ==
+  Muxes(sys) # {} /\ \E ins \in Pick(2, {q \in SeqsUpTo(Pick(3, NonLoads), 2) : Len(q) >= 1 /\ NoDup(q)}), name \in Pick(1, FreeNames) :
+     X("rej", "add_comp", [refs |-> ins, aslist |-> TRUE, comp |-> C(name, "PMux", 0), rail |-> "", group |-> ""])
 NextReuse ==
-  IF step < 5 THEN BInner \/ BInner \/ BAddComp \/ BAddSource \/ BAddMux
+  IF step < 5 THEN BInner \/ BInner \/ BAddComp \/ BAddSource \/ BAddSource \/ BAddMux
   ELSE IF step \in {5, 9} THEN BDelEarly
-  ELSE BGrow \/ BGrow \/ BAddMux
+  ELSE IF step \in {6, 10} /\ Muxes(sys) = {} THEN BAddMux \/ BGrow
+  ELSE BGrow \/ BGrow \/ BAddMux \/ BSecondMux
 SpecReuse == (Init /\ step = 0 /\ act = [op |-> "init", a |-> <<>>]) /\ [][NextReuse]_<<vars, step, act>>
 
 SpecSim == (Init /\ step = 0 /\ act = [op |-> "init", a |-> <<>>]) /\ [][NextSim]_<<vars, step, act>>
